@@ -7,6 +7,7 @@ import (
 	"context"
 	"errors"
 	"io"
+	"strings"
 	"time"
 
 	conformancev1 "connectrpc.com/conformance/internal/gen/proto/go/connectrpc/conformance/v1"
@@ -437,7 +438,15 @@ func H11b_q() {
 	rec := &vRecPrinter{}
 	runTestCasesForServer(context.Background(), false, true, serverInstance{protocol: 2, httpVersion: 2}, cases,
 		nil, nil, start, rec, errP, results, client, nil, false)
-	_, hasFeedback := results.serverSideband[vBatchName(0)]
+	fbText, hasFeedback := results.serverSideband[vBatchName(0)]
+	for i := 0; i < nl; i++ {
+		switch vIntAt("line", i, 2, 0, 3) {
+		case 3:
+			vAssert(strings.Contains(fbText, "invalid value: 42"), "every feedback line for a case is kept (a later line does not replace an earlier one)")
+		case 0:
+			vAssert(strings.Contains(fbText, "bad header"), "every feedback line for a case is kept (a later line does not replace an earlier one)")
+		}
+	}
 	vAssert(hasFeedback == (wantFeedback > 0), "a 'name: message' line for a case of the batch is recorded as feedback for that case - also when it is the last line and lacks a newline")
 	vAssert(errP.forwarded == wantForward, "every other stderr line is passed through")
 	// the reference server is told what to expect
